@@ -1050,6 +1050,7 @@ std::string sqf::parser::preprocessor::impl_default::instance::parse_file(::sqf:
             case '"':
             {
                 is_in_string = true;
+                was_new_line = false; // A '#' behind a string is not the first thing on its line
                 auto word = wordstream.str();
                 wordstream.str("");
                 if (current_file_scope().conditions.empty() || current_file_scope().conditions.back().allow_write)
